@@ -1209,6 +1209,10 @@ def check(case, run, stats=None):
         elif k == 'EMIT' and ev.get('table') == 'history':
             err = cmp_state(ev.get('snap') or {}, seq, ev.get('ids'))
             if err:
+                if ev['op'] == -1 and not restarted and err['prop'] == 'C09' and not any(
+                        a_['kind'] == 'step' for a_ in case['actors']):
+                    # the hierarchy as first built (no update applied yet): C15
+                    err = V('C15', 'C15.initial-state', err['rule'], 'after construction: ' + err['detail'], seq)
                 return [err]
             probe('state-checked')
             # C12: rows follow the changing shape (every cell variable is flagged for emission)
